@@ -299,9 +299,9 @@ func NewPlainObserver(env *Env, evt ecs.EventType) Observer {
 }
 
 func (o *plainObserver) Comps() []ct.Comp      { return nil }
-func (o *plainObserver) For(cs ...ct.Comp)     { o.o.For(compsOf(cs)...) }
-func (o *plainObserver) With(cs ...ct.Comp)    { o.o.With(compsOf(cs)...) }
-func (o *plainObserver) Without(cs ...ct.Comp) { o.o.Without(compsOf(cs)...) }
+func (o *plainObserver) For(cs ...ct.Comp)     { Spread(cs, func(s []ecs.Comp) { o.o.For(s...) }) }
+func (o *plainObserver) With(cs ...ct.Comp)    { Spread(cs, func(s []ecs.Comp) { o.o.With(s...) }) }
+func (o *plainObserver) Without(cs ...ct.Comp) { Spread(cs, func(s []ecs.Comp) { o.o.Without(s...) }) }
 func (o *plainObserver) Exclusive()            { o.o.Exclusive() }
 func (o *plainObserver) Do(fn func(ecs.Entity, []unsafe.Pointer)) {
 	o.o.Do(func(e ecs.Entity) { fn(e, nil) })
